@@ -13,7 +13,7 @@ RULE = ("(1) manifold certificate, complete per level for res 0..5 (quick) / 0..
         "of res 2..29 (by id construction with structured S; by location at poles, frame points/neighbourhoods, antimeridian): "
         "for each of the 5 edges, the point 5% beyond the edge midpoint (3-D construction) belongs, by lonlat_to_cell, to a "
         "different cell whose segments=4 ring contains the same edge reversed, end points and the three interior points "
-        "within 1e-4 L; the cell's centre is not inside that neighbour. One case = one cell (5 edges). Non-trivial = an edge "
+        "within 1e-4 L; points 0.4% beyond the edge at 3/12/88/97% along it go to that neighbour (or a cell containing them); the cell's centre is not inside that neighbour. One case = one cell (5 edges). Non-trivial = an edge "
         "is shared across a face or segment boundary, or the cell is within 3 L of a pole/frame point; distinct by cell.")
 ASSUMPTIONS = ["for res>=8 the partition is sampled, not certified", "vertex coincidence tolerance 1e-6 L (measured 1e-12 L), edge point tolerance 1e-4 L + float floor"]
 REQUIRED_CLASSES = {"edge_across_face": ("hyp", 0.05), "near_frame_or_pole": ("hyp", 0.1)}
@@ -130,6 +130,8 @@ def judge_cell(cell, col, cls):
     n = len(ring4)
     if n != 20 or len(corners) != 5:
         raise Violation("vertex_count", case, observed=(n, len(corners)), expected=(20, 5))
+    ring32 = guarded(a5.cell_to_boundary, cell, {"segments": 32, "closed_ring": False}, kind="cell_to_boundary_raised", case=case)
+    i32, _d = _locate(ring32, corners[0], L, "corner", case)
     i0, d0 = _locate(ring4, corners[0], L, "corner", case)
     if d0 > 1e-7:
         raise Violation("corner_not_in_fine_ring", case, observed=d0, expected="<= 1e-7")
@@ -159,6 +161,21 @@ def judge_cell(cell, col, cls):
         verdict, mm = contains(centre, nb, res)
         if verdict != "out":
             raise Violation("cells_overlap", ecase, observed=f"centre of the cell is {verdict} neighbour {hex(nb)}", expected="outside")
+        # points just beyond the edge near its ends belong to the same neighbour (or to a cell that contains them)
+        for s in (1, 4, 28, 31):
+            q = ring32[(i32 + 32 * e + s) % len(ring32)]
+            dist = refgeo.gc_dist(q, centre)
+            probe = refgeo.toward(centre, q, 1 + 0.004 * L / dist)
+            got = guarded(a5.lonlat_to_cell, probe, res, kind="lonlat_to_cell_raised", case=ecase)
+            col.count("along_edge_probes")
+            if got == nb:
+                continue
+            pcase = {"cell": hex(cell), "edge": e, "probe": [probe[0], probe[1]]}
+            if got == cell:
+                raise Violation("point_beyond_edge_in_same_cell", pcase, observed=hex(got), expected=f"neighbour {hex(nb)}")
+            v2, m2 = contains(probe, got, res)
+            if v2 == "out":
+                raise Violation("point_beyond_edge_given_to_cell_not_containing_it", pcase, observed=f"{hex(got)} (outside by {-m2:.3g} cell widths)", expected=f"neighbour {hex(nb)}")
         nd = refids.dec(nb)
         if nd[1] != me[1]:
             across_face = True
@@ -191,15 +208,27 @@ def judge(case, col):
 def cases():
     by_id = gens.cell_ids(2, 29).map(lambda c: {"cell": hex(c)})
     by_loc = st.builds(lambda p, r: {"lon": p["lon"], "lat": p["lat"], "res": r}, gens.pts_base(), gens.resolutions(2, 29))
-    return st.one_of(by_id, by_loc, by_loc)
+    by_edge = gens.edge_scaled_cases(2, 29).map(lambda c: {"lon": c["lon"], "lat": c["lat"], "res": c["res"]})
+    return st.one_of(by_id, by_loc, by_loc, by_edge)
 
 
 def stage_hyp(ctx):
     hyp_drive(ctx, cases(), judge, 250 if ctx.tier == "quick" else 8000)
 
 
+def stage_boundary(ctx):
+    """Cells containing the places where the library's own branches flip (lib/boundary.py)."""
+    from lib import boundary
+    anc = boundary.anchors(ctx, "cell", 100 if ctx.tier == "quick" else 500) + boundary.anchors(ctx, "proj", 100 if ctx.tier == "quick" else 500)
+    if not anc:
+        ctx.col.count("boundary_stage_skipped")
+        return
+    strat = st.builds(lambda p, r: {"lon": p["lon"], "lat": p["lat"], "res": r}, boundary.anchor_points(anc), gens.resolutions(2, 29))
+    hyp_drive(ctx, strat, judge, 60 if ctx.tier == "quick" else 2500)
+
+
 def plan(tier):
-    return [Stage("certificate", 8, stage_certificate, cost=10), Stage("hyp", 16, stage_hyp, cost=6)]
+    return [Stage("certificate", 8, stage_certificate, cost=10), Stage("hyp", 16, stage_hyp, cost=6), Stage("boundary", 16, stage_boundary, cost=4)]
 
 
 def replay(rec, col):
